@@ -33,14 +33,19 @@ func NewChannelBind(number proto.ChannelNumber, peer net.Addr, log logging.Level
 
 func (c *ChannelBind) start(lifetime time.Duration) {
 	c.lifetimeTimer = time.AfterFunc(lifetime, func() {
-		if !c.allocation.RemoveChannelBind(c.Number) {
+		if !c.allocation.removeChannelBind(c) {
 			c.log.Errorf("Failed to remove ChannelBind for %v %x %v", c.Number, c.Peer, c.allocation.fiveTuple)
 		}
 	})
 }
 
-func (c *ChannelBind) refresh(lifetime time.Duration) {
-	if !c.lifetimeTimer.Reset(lifetime) {
-		c.log.Errorf("Failed to reset ChannelBind timer for %v %x %v", c.Number, c.Peer, c.allocation.fiveTuple)
+// refresh re-arms the timer. It reports false if the timer has already fired: the binding
+// has expired then, even if its removal has not completed yet.
+func (c *ChannelBind) refresh(lifetime time.Duration) bool {
+	if c.lifetimeTimer.Reset(lifetime) {
+		return true
 	}
+	c.lifetimeTimer.Stop()
+
+	return false
 }
